@@ -44,6 +44,21 @@ def base_file(rng, D, C):
             else:
                 out.append("%s%s%s%s" % (k, d, rng.pick(["v1", "v 2", "\"q\"", "1"]), rng.pick(["", " # trailing"])))
         return "options", "\n".join(out) + "\n"
+    if r < 0.66:
+        # counts just past allocation steps: many sections, many keys in one section, many group-less keys
+        d = D[0] if D else " "
+        n = rng.pick([7, 8, 9, 15, 16, 17, 31, 32, 33, 64, 65])
+        kind = rng.pick(["sections", "sections+global", "keys", "global"])
+        out = []
+        if kind in ("sections+global", "global"):
+            out += ["g%d%sv" % (k, d) for k in range(n if kind == "global" else 2)]
+        if kind.startswith("sections"):
+            base = rng.pick(["s", "t"])
+            for k in range(n):
+                out += ["[%s%d]" % (base, k), "k%sv%d" % (d, k)]
+        if kind == "keys":
+            out += ["[one]"] + ["k%d%sv" % (k, d) for k in range(n)]
+        return "counts", "\n".join(out) + "\n"
     if r < 0.72:
         n = rng.randint(1, 200)
         return "structural", "".join(rng.pick(STRUCT) for _ in range(n))
